@@ -461,7 +461,7 @@ func c07R5(p *core.Program, r *core.Report) {
 	var sibs []*core.Func
 	for _, cs := range callersOf(p, genType, genAlias) {
 		if core.RelPkg(cs.In.Pkg.PkgPath) == "pkg/gengo" {
-			sibs = append(sibs, cs.In.Root())
+			sibs = append(sibs, flatten(p, cs.In.Root())) // a shared error-handling tail is seen in place
 		}
 	}
 	if len(sibs) != 2 {
@@ -498,7 +498,7 @@ func c07R5(p *core.Program, r *core.Report) {
 			if tv.Value == nil || tv.Value.String() != "true" {
 				return true
 			}
-			if !core.SameRef(info, as.Lhs[0].(*ast.SelectorExpr).X, recvIdent(f)) {
+			if !sameAlias(f, as.Lhs[0].(*ast.SelectorExpr).X, recvVar(f)) {
 				return true
 			}
 			for _, fct := range g.FactsAt(g.PointOf(as)) {
